@@ -101,6 +101,12 @@ class Event:
     at: typing.Union[datetime.datetime, str]
     n: typing.Union[typing.List[int], typing.List[str]] = dataclasses.field(default_factory=list)
 import collections
+class S(str):
+    pass
+@dataclasses.dataclass
+class Inventory:
+    name: str
+    counts: typing.Dict[str, int] = dataclasses.field(default_factory=dict)
 class Document(typing.TypedDict):
     # keys of a TypedDict are wire keys whatever they look like (`_id` of a document store)
     _id: uuid.UUID
@@ -130,7 +136,11 @@ SEQ_CASES = [("typing.Union[uuid.UUID, str]", [U1, "'hello'", U2, "'x'", U1]),
              ("Revision", ["{'number': 1}", "{'number': 2, '_etag': 'W/123'}"]),
              ("Row", ["Row('kw', 3)", "Row(None, [1])"]), ("TypedRow", ["TypedRow('k', Row('a', 1))"]),
              ("typing.Dict[str, typing.List[Document]]", ["{'docs': [{'_id': " + U1 + ", 'title': 't'}]}"]),
-             ("Shelf", ["Shelf([{'_id': " + U2 + ", 'title': 't'}], {'number': 3, '_etag': 'e'})"])]
+             ("Shelf", ["Shelf([{'_id': " + U2 + ", 'title': 't'}], {'number': 3, '_etag': 'e'})"]),
+             # instances of a str subclass are valid members of str: as mapping keys (the default encoder takes exact str keys only),
+             # as values, as a field
+             ("typing.Dict[str, int]", ["{S('apples'): 1, 'pears': 2}", "{S(''): 0}"]), ("typing.List[str]", ["[S('a'), 'b']"]),
+             ("Inventory", ["Inventory(S('shed'), {S('apples'): 1})"]), ("typing.Dict[str, typing.Dict[str, str]]", ["{S('o'): {S('i'): S('v')}}"])]
 
 
 def _seq_child(case):
